@@ -36,7 +36,7 @@ fn describe(r: &Result<End<Result<Vec<(u64, Vec<u8>)>, String>>, String>) -> Str
 }
 
 pub fn run(ctx: &mut Ctx) {
-    let big = ctx.tier == crate::harness::Tier::Thorough && gen::chance(1, 40);
+    let big = gen::chance(1, if ctx.tier == crate::harness::Tier::Thorough { 40 } else { 150 });
     let cfg = gen::gen_config(false, big);
     let max_len = if big { 5 << 20 } else { 96 * 1024 };
     let (spec, data) = gen::gen_source(&cfg, max_len);
